@@ -175,7 +175,20 @@ impl Check for C13 {
             let accounts = g.accounts.clone();
             let entries = std::mem::take(&mut g.entries);
             drop(g);
-            (gen::split_world(rng, entries, cfg.crlf, &split), coms, accounts)
+            // half of the trees are deep ones with wildcards in directory components, where
+            // equally named files in sibling directories tie under a sort by file name
+            let w = if rng.chance(1, 2) {
+                let tcfg = gen::TreeCfg {
+                    max_files: 2 + rng.usize(6),
+                    max_depth: 1 + rng.usize(3),
+                    dotfiles: rng.chance(1, 2),
+                    decoys: false,
+                };
+                gen::split_tree(rng, entries, cfg.crlf, &tcfg)
+            } else {
+                gen::split_world(rng, entries, cfg.crlf, &split)
+            };
+            (w, coms, accounts)
         };
         let root = world.root().to_string();
         let n_procs = 2 + rng.usize(5);
